@@ -79,10 +79,10 @@ def peer(name="p1", remote="10.0.0.2", localAS=65001, remoteAS=65002, hold=90,
 
 def step(op, **kw):
     d = {"op": op, "peer": "", "conn": "", "src": "", "dst": "", "b": [], "chunks": [],
-         "d": 0, "w": 0, "call": "", "addr": "", "multi": []}
+         "d": 0, "w": 0, "call": "", "addr": "", "multi": [], "lis": 0}
     d.update(kw)
     return d
 
 
-def script(sid, peers, steps, routerID="10.0.0.1"):
-    return {"id": sid, "routerID": routerID, "peers": peers, "steps": steps}
+def script(sid, peers, steps, routerID="10.0.0.1", listeners=None):
+    return {"id": sid, "routerID": routerID, "peers": peers, "steps": steps, "listeners": listeners or []}
